@@ -7,6 +7,7 @@ import (
 	"go/ast"
 	"go/token"
 	"go/types"
+	"regexp"
 	"strconv"
 	"strings"
 )
@@ -188,6 +189,14 @@ func (w *World) verifyFunc(key string) (fc *FuncCtx) {
 		st.vars[rv] = fc.reg().Zero(rv.Type())
 	}
 	st.ghost["jslast"] = fc.fresh("jslast", types.Typ[types.String])
+	// ghosts <Callee>_err named by the contract start as "no failed call yet"
+	for _, cl := range append(append([]*Clause{}, fc.contract.ExitAsserts...), fc.contract.Ensures...) {
+		for _, m := range ghostErrRe.FindAllString(cl.Text, -1) {
+			if _, have := st.ghost[m]; !have {
+				st.ghost[m] = fc.reg().Zero(types.Universe.Lookup("error").Type())
+			}
+		}
+	}
 	for _, want := range strings.Fields(fc.contract.Opts["countsends"]) {
 		st.ghost["sends_"+want] = fc.fresh("sends_"+want, tInt)
 		ast.Inspect(decl, func(n ast.Node) bool {
@@ -215,6 +224,17 @@ func (w *World) verifyFunc(key string) (fc *FuncCtx) {
 				name := "sends_" + key[strings.LastIndex(key, ".")+1:]
 				if _, have := st.ghost[name]; !have {
 					st.ghost[name] = fc.fresh(name, tInt)
+				}
+			} else if id, ok := unparen(ss.Chan).(*ast.Ident); ok {
+				// a channel held in a local variable or parameter: sends_<name>, lastsent_<name>
+				if v, ok := fc.info.ObjectOf(id).(*types.Var); ok && fc.isLocal(v) {
+					name := "sends_" + id.Name
+					if _, have := st.ghost[name]; !have {
+						st.ghost[name] = fc.fresh(name, tInt)
+						if ct, ok := v.Type().Underlying().(*types.Chan); ok {
+							st.ghost["lastsent_"+id.Name] = fc.fresh("lastsent_"+id.Name, ct.Elem())
+						}
+					}
 				}
 			}
 		}
@@ -654,3 +674,5 @@ func (fc *FuncCtx) checkAliasClauses(st *State, vals []Term, n ast.Node) {
 		fc.oblige(st, "alias.return", site, eq(got.S, want.S), n, "the returned pointer is the element at the index the contract names: "+al.Text)
 	}
 }
+
+var ghostErrRe = regexp.MustCompile(`\b[A-Z][A-Za-z0-9]*_err\b`)
